@@ -1,4 +1,4 @@
-(** Model of src/epd4in2/mod.rs — STUB, not yet transcribed. *)
+(** Model of src/epd4in2/mod.rs (IL0398-style, QuickRefresh + shift_display). *)
 From Coq Require Import List NArith Bool.
 From EPD Require Import Iface Ops Drv.Luts.
 Import ListNotations.
@@ -8,11 +8,221 @@ Open Scope m_scope.
 Module Epd4in2.
 Definition WIDTH : N := 400.
 Definition HEIGHT : N := 300.
+Definition IS_BUSY_LOW := true.
 
-Definition init : M unit := ret tt.
+(** Color::get_byte_value *)
+Definition get_byte_value (c : N) : N := if c =? cWhite then 0xff else 0x00.
 
-Definition exec (k : N) (o : op) : option (M rval) := None.
+Definition wait_until_idle : M unit := wait_idle IS_BUSY_LOW.
+
+(** thin wrappers of the inherent impl *)
+Definition command (c : N) : M unit := cmd c.
+Definition send_data (l : list N) : M unit := data l.
+
+Definition send_resolution : M unit :=
+  let w := WIDTH in
+  let h := HEIGHT in
+  command 0x61 ;;
+  send_data [u8 (shr w 8)] ;;
+  send_data [u8 w] ;;
+  send_data [u8 (shr h 8)] ;;
+  send_data [u8 h].
+
+Definition set_lut_helper (lut_vcom lut_ww lut_bw lut_wb lut_bb : list N) : M unit :=
+  wait_until_idle ;;
+  cmd_with_data 0x20 lut_vcom ;;
+  cmd_with_data 0x21 lut_ww ;;
+  cmd_with_data 0x22 lut_bw ;;
+  cmd_with_data 0x23 lut_wb ;;
+  cmd_with_data 0x24 lut_bb.
+
+Definition set_lut (r : option N) : M unit :=
+  (match r with Some v => modify (set_refresh v) | None => ret tt end) ;;
+  s <- get ;;
+  if refresh s =? 0
+  then set_lut_helper epd4in2_LUT_VCOM0 epd4in2_LUT_WW epd4in2_LUT_BW epd4in2_LUT_WB epd4in2_LUT_BB
+  else set_lut_helper epd4in2_LUT_VCOM0_QUICK epd4in2_LUT_WW_QUICK epd4in2_LUT_BW_QUICK
+                      epd4in2_LUT_WB_QUICK epd4in2_LUT_BB_QUICK.
+
+Definition init : M unit :=
+  reset 10000 10000 ;;
+  cmd_with_data 0x01 [0x03; 0x00; 0x2b; 0x2b; 0xff] ;;
+  cmd_with_data 0x06 [0x17; 0x17; 0x17] ;;
+  command 0x04 ;;
+  delay_us 5000 ;;
+  wait_until_idle ;;
+  cmd_with_data 0x00 [0x3F] ;;
+  cmd_with_data 0x30 [0x3A] ;;
+  send_resolution ;;
+  cmd_with_data 0x82 [0x12] ;;
+  cmd_with_data 0x50 [0x97] ;;
+  set_lut None ;;
+  wait_until_idle.
+
+Definition sleep : M unit :=
+  wait_until_idle ;;
+  cmd_with_data 0x50 [0x17] ;;
+  command 0x82 ;;
+  command 0x00 ;;
+  command 0x01 ;;
+  repeatM 4 (send_data [0x00]) ;;
+  command 0x02 ;;
+  wait_until_idle ;;
+  cmd_with_data 0x07 [0xA5].
+
+Definition update_frame (k len : N) : M unit :=
+  wait_until_idle ;;
+  s <- get ;;
+  let color_value := get_byte_value (bg s) in
+  cmd 0x10 ;;
+  data_x_times color_value (WIDTH / 8 * HEIGHT) ;;
+  cmd_with_data_e 0x13 (DArg k 0 0 len).
+
+(** [if buffer.len() as u32 != width / 8 * height { /* TODO */ }]: the body is empty, but the
+    condition is evaluated and its multiplication is overflow-checked *)
+Definition buffer_size_check (len w h : N) : M bool :=
+  n <- mul32 (w / 8) h ;;
+  ret (negb (len mod u32max =? n)).
+
+(** the nine window bytes; written out twice in the Rust (update_partial_frame, shift_display) *)
+Definition shift_display (x y w h : N) : M unit :=
+  send_data [u8 (shr x 8)] ;;
+  let tmp := band x 0xf8 in
+  send_data [u8 tmp] ;;
+  t1 <- add32 tmp w ;;
+  tmp <- sub32 t1 1 ;;
+  send_data [u8 (shr tmp 8)] ;;
+  send_data [u8 (bor tmp 0x07)] ;;
+  send_data [u8 (shr y 8)] ;;
+  send_data [u8 y] ;;
+  a <- add32 y h ;;
+  a <- sub32 a 1 ;;
+  send_data [u8 (shr a 8)] ;;
+  b <- add32 y h ;;
+  b <- sub32 b 1 ;;
+  send_data [u8 b] ;;
+  send_data [0x01].
+
+Definition update_partial_frame (k len x y w h : N) : M unit :=
+  wait_until_idle ;;
+  _ <- buffer_size_check len w h ;;
+  command 0x91 ;;
+  command 0x90 ;;
+  send_data [u8 (shr x 8)] ;;
+  let tmp := band x 0xf8 in
+  send_data [u8 tmp] ;;
+  t1 <- add32 tmp w ;;
+  tmp <- sub32 t1 1 ;;
+  send_data [u8 (shr tmp 8)] ;;
+  send_data [u8 (bor tmp 0x07)] ;;
+  send_data [u8 (shr y 8)] ;;
+  send_data [u8 y] ;;
+  a <- add32 y h ;;
+  a <- sub32 a 1 ;;
+  send_data [u8 (shr a 8)] ;;
+  b <- add32 y h ;;
+  b <- sub32 b 1 ;;
+  send_data [u8 b] ;;
+  send_data [0x01] ;;
+  (* is_dtm1 = false *)
+  command 0x13 ;;
+  data_e (DArg k 0 0 len) ;;
+  command 0x92.
+
+Definition display_frame : M unit :=
+  wait_until_idle ;;
+  command 0x12.
+
+Definition update_and_display_frame (k len : N) : M unit :=
+  update_frame k len ;;
+  command 0x12.
+
+Definition clear_frame : M unit :=
+  wait_until_idle ;;
+  send_resolution ;;
+  s <- get ;;
+  let color_value := get_byte_value (bg s) in
+  cmd 0x10 ;;
+  data_x_times color_value (WIDTH / 8 * HEIGHT) ;;
+  cmd 0x13 ;;
+  data_x_times color_value (WIDTH / 8 * HEIGHT).
+
+(** QuickRefresh *)
+Definition update_old_frame (k len : N) : M unit :=
+  wait_until_idle ;;
+  cmd 0x10 ;;
+  data_e (DArg k 0 0 len).
+
+Definition update_new_frame (k len : N) : M unit :=
+  wait_until_idle ;;
+  cmd 0x13 ;;
+  data_e (DArg k 0 0 len).
+
+Definition display_new_frame : M unit := display_frame.
+
+Definition update_and_display_new_frame (k len : N) : M unit :=
+  update_new_frame k len ;;
+  display_frame.
+
+Definition update_partial_old_frame (k len x y w h : N) : M unit :=
+  wait_until_idle ;;
+  _ <- buffer_size_check len w h ;;
+  cmd 0x91 ;;
+  cmd 0x90 ;;
+  shift_display x y w h ;;
+  cmd 0x10 ;;
+  data_e (DArg k 0 0 len).
+
+Definition update_partial_new_frame (k len x y w h : N) : M unit :=
+  wait_until_idle ;;
+  _ <- buffer_size_check len w h ;;
+  shift_display x y w h ;;
+  cmd 0x13 ;;
+  data_e (DArg k 0 0 len) ;;
+  cmd 0x92.
+
+Definition clear_partial_frame (x y w h : N) : M unit :=
+  wait_until_idle ;;
+  send_resolution ;;
+  s <- get ;;
+  let color_value := get_byte_value (bg s) in
+  cmd 0x91 ;;
+  cmd 0x90 ;;
+  shift_display x y w h ;;
+  cmd 0x10 ;;
+  n1 <- mul32 (w / 8) h ;;
+  data_x_times color_value n1 ;;
+  cmd 0x13 ;;
+  n2 <- mul32 (w / 8) h ;;
+  data_x_times color_value n2 ;;
+  cmd 0x92.
+
+Definition exec (k : N) (o : op) : option (M rval) :=
+  match o with
+  | OSleep => unit_ sleep
+  | OWakeUp => unit_ init
+  | OSetBg c => unit_ (modify (set_bg c))
+  | OGetBg => Some (s <- get ;; ret (RColor (bg s)))
+  | OWidth => Some (ret (RNum WIDTH))
+  | OHeight => Some (ret (RNum HEIGHT))
+  | OUpdateFrame len => unit_ (update_frame k len)
+  | OUpdatePartial len x y w h => unit_ (update_partial_frame k len x y w h)
+  | ODisplay => unit_ display_frame
+  | OUpdateAndDisplay len => unit_ (update_and_display_frame k len)
+  | OClear => unit_ clear_frame
+  | OSetLut r => unit_ (set_lut r)
+  | OWaitIdle => unit_ wait_until_idle
+  | OUpdateOld len => unit_ (update_old_frame k len)
+  | OUpdateNew len => unit_ (update_new_frame k len)
+  | ODisplayNew => unit_ display_new_frame
+  | OUpdateAndDisplayNew len => unit_ (update_and_display_new_frame k len)
+  | OUpdatePartialOld len x y w h => unit_ (update_partial_old_frame k len x y w h)
+  | OUpdatePartialNew len x y w h => unit_ (update_partial_new_frame k len x y w h)
+  | OClearPartial x y w h => unit_ (clear_partial_frame x y w h)
+  | OShiftDisplay x y w h => unit_ (shift_display x y w h)
+  | _ => None
+  end.
 
 Definition drv (ft : feat) : driver :=
-  mkDriver WIDTH HEIGHT true d0 init exec.
+  mkDriver WIDTH HEIGHT true (mkD cWhite 0 false false 0 None) init exec.
 End Epd4in2.
